@@ -16,8 +16,8 @@ from mc.engine import e2
 from mc.engine.core import Collector, Result, Violation
 
 PLAN = {
-    "quick": [("D1", 2), ("D2", 2), ("C1", 3), ("L1", 2), ("G1", 3), ("M1", 2), ("M2", 3), ("M3", 2)],
-    "thorough": [("D1", 3), ("D2", 3), ("C1", 4), ("L1", 3), ("G1", 4), ("M1", 3), ("M2", 4), ("M3", 3)],
+    "quick": [("D1", 2), ("D2", 2), ("C1", 3), ("L1", 2), ("G1", 3), ("M1", 2), ("M2", 3), ("M3", 2), ("D3", 2), ("C2", 3), ("M5", 3)],
+    "thorough": [("D1", 3), ("D2", 3), ("C1", 4), ("L1", 3), ("G1", 4), ("M1", 3), ("M2", 4), ("M3", 3), ("D3", 3), ("C2", 4), ("M5", 4)],
 }
 
 DF_KINDS = ("dfg", "func", "case", "loop", "block")
